@@ -49,7 +49,8 @@ pub fn exec(line: &str) -> String {
             cur = nxt;
         }
         let modelled = m.get("modelled").map(|s| s == "1").unwrap_or(false);
-        format!("val rt={} sizeok={} len={} decl={} a2a={} enc={}", rt, size_ok, enc.len(), decl, if a2a.is_empty() { "-".to_string() } else { a2a.join(";") }, if modelled { hex(&enc) } else { "?".into() })
+        let lossy = m.get("lossy").map(|s| format!(" dec={}", if s.is_empty() { String::new() } else { show_elems(&dec) })).unwrap_or_default();
+        format!("val rt={} sizeok={} len={} decl={} a2a={} enc={}{}", rt, size_ok, enc.len(), decl, if a2a.is_empty() { "-".to_string() } else { a2a.join(";") }, if modelled { hex(&enc) } else { "?".into() }, lossy)
     })
 }
 
@@ -105,7 +106,7 @@ pub fn generate(tier: &str, seed: u64) -> Vec<String> {
             Some(es) => {
                 let k2 = rng.below(8);
                 if dt.numeric && es > 1 && k2 == 0 { json.push("{\"name\":\"numcodecs.pcodec\",\"configuration\":{}}".into()); modelled = false; model.push("pcodec".into()); }
-                else if (dt.name == "bool" || (dt.numeric && !dt.float)) && k2 == 1 {
+                else if (dt.name == "bool" || dt.numeric || dt.name == "complex64") && k2 == 1 {
                     // packbits with its options: padding byte first/last, and (unsigned types) a bit range the data stays within
                     let mut cfgs: Vec<String> = vec![];
                     match rng.below(4) { 0 => cfgs.push("\"padding_encoding\":\"first_byte\"".into()), 1 => cfgs.push("\"padding_encoding\":\"last_byte\"".into()), 2 => cfgs.push("\"padding_encoding\":\"none\"".into()), _ => {} }
@@ -117,7 +118,11 @@ pub fn generate(tier: &str, seed: u64) -> Vec<String> {
                         else { cfgs.push(format!("\"last_bit\":{}", last)); bit_range = Some((0, last)); }
                     }
                     json.push(if cfgs.is_empty() { "{\"name\":\"packbits\"}".to_string() } else { format!("{{\"name\":\"packbits\",\"configuration\":{{{}}}}}", cfgs.join(",")) });
-                    modelled = false; model.push("packbits".into());
+                    // component width / sign extension of the data type, bit range, padding mode: modelled byte for byte
+                    let w = if dt.name == "bool" { 1 } else if dt.name == "complex64" { 32 } else { es * 8 } as u64;   // component width
+                    let (f, l) = bit_range.unwrap_or((0, w - 1));
+                    let pad = if cfgs.iter().any(|c| c.contains("first_byte")) { "first" } else if cfgs.iter().any(|c| c.contains("last_byte")) { "last" } else { "none" };
+                    model.push(format!("packbits:{}:{}:{}:{}:{}", w, f, l, pad, dt.name.starts_with("int") as u8));
                 }
                 else if es == 1 { json.push("{\"name\":\"bytes\"}".into()); model.push(format!("bytes:little:{}", es)); }
                 else {
@@ -161,6 +166,31 @@ pub fn generate(tier: &str, seed: u64) -> Vec<String> {
                 let mask = if width == 64 { u64::MAX } else { ((1u64 << width) - 1) << first };
                 v &= mask;
                 for (i, b) in e.iter_mut().enumerate() { *b = (v >> (8 * i)) as u8; }
+            }
+        }
+        if k % 6 == 5 {
+            // lossy codecs: the decoded value is judged by the model (bitround: the prescribed rounding; fixedscaleoffset: within 0.5/scale)
+            let n = rng.range(1, 12);
+            let (name, es2, mant): (&str, usize, u32) = *rng.pick(&[("float32", 4, 23), ("float64", 8, 52), ("float16", 2, 10), ("bfloat16", 2, 7), ("uint8", 1, 0), ("uint16", 2, 0), ("int16", 2, 0), ("uint32", 4, 0), ("int32", 4, 0), ("uint64", 8, 0), ("int64", 8, 0)]);
+            let elems: Vec<Vec<u8>> = (0..n).map(|_| { let mut b = rng.bytes(es2); if mant > 0 && rng.chance(1, 2) {
+                // ordinary magnitudes
+                let v = (rng.below(2000000) as f64 - 1000000.0) / 7.0;
+                b = match name { "float32" => (v as f32).to_le_bytes().to_vec(), "float64" => v.to_le_bytes().to_vec(), "float16" => half::f16::from_f64(v / 100.0).to_le_bytes().to_vec(), _ => half::bf16::from_f64(v).to_le_bytes().to_vec() };
+            } b }).collect();
+            if rng.chance(1, 2) {
+                let keep = rng.below(if mant > 0 { mant as u64 + 3 } else { (es2 * 8) as u64 + 1 });
+                out.push(format!("c03 codec lossy=bitround:{}:{} dtype={} es={} shape={} fill={} modelled=0 model=bitround json={} data={}", keep, mant, name, es2, n, hex(&vec![0u8; es2]),
+                    hex(format!("[{{\"name\":\"bitround\",\"configuration\":{{\"keepbits\":{}}}}},{{\"name\":\"bytes\",\"configuration\":{{\"endian\":\"little\"}}}}]", keep).as_bytes()), show_elems(&elems)));
+            } else if name != "float16" && name != "bfloat16" && name != "uint64" && name != "int64" {
+                // scale/offset on a type, stored as itself or as a narrower integer
+                let (v2, kind) = match name { "float32" => ("f4", "f"), "float64" => ("f8", "f"), "uint8" => ("u1", "u"), "uint16" => ("u2", "u"), "int16" => ("i2", "i"), "uint32" => ("u4", "u"), _ => ("i4", "i") };
+                let scale = if kind == "f" { *rng.pick(&[1u32, 1, 2, 10, 100]) } else { 1 };   // an integer type stored as itself: scaling must fit the type
+                let offset = if kind == "f" { *rng.pick(&[0i32, 0, -3, 1000]) } else { 0 };
+                let elems: Vec<Vec<u8>> = if kind == "f" { (0..n).map(|_| { let v = (rng.below(200000) as f64 - 100000.0) / 8.0; if name == "float32" { (v as f32).to_le_bytes().to_vec() } else { v.to_le_bytes().to_vec() } }).collect() } else { elems };
+                let astype = if kind == "f" { *rng.pick(&["", "i4", "i8"]) } else { "" };
+                let cfg = format!("{{\"offset\":{},\"scale\":{},\"dtype\":\"{}\"{}}}", offset, scale, v2, if astype.is_empty() { String::new() } else { format!(",\"astype\":\"{}\"", astype) });
+                out.push(format!("c03 codec lossy=fso:{}:{}:{} dtype={} es={} shape={} fill={} modelled=0 model=fixedscaleoffset json={} data={}", offset, scale, kind, name, es2, n, hex(&vec![0u8; es2]),
+                    hex(format!("[{{\"name\":\"numcodecs.fixedscaleoffset\",\"configuration\":{}}},{{\"name\":\"bytes\",\"configuration\":{{\"endian\":\"little\"}}}}]", cfg).as_bytes()), show_elems(&elems)));
             }
         }
         out.push(format!("c03 codec dtype={} es={} shape={} fill={} modelled={} model={} json={} data={}", dt.name,
